@@ -102,7 +102,7 @@ def check_guard(rep, rid, construct, states, side_pred, what, where, min_returns
                 rep.violation(rid, construct, 'mismatch does not stop the path: %s' % text,
                               'when %s fails the function still returns (wrong polarity or a non-raising reaction)' % what, where=where,
                               expected='raise on mismatch', found='path with (%s) = %s returns %s' % (text, value, _ret(s)), scenario=scenario)
-            elif on_match is None or on_mismatch is None or on_match == on_mismatch:
+            elif on_mismatch is None:      # (a decided on_mismatch that differs from the decision taken means: only a match gets here)
                 ok = False
                 rep.violation(rid, construct, 'check does not decide the path: %s' % text,
                               'the comparison for %s does not control whether the value is returned' % what, where=where, found=text,
